@@ -104,16 +104,22 @@ static void note_internal() {
 // ------------------------------------------------------------------------------------------------ vector script
 template <class V, bool Extras>
 struct ExtraOps {
-  static bool run(int, V &, std::vector<Val> &, Rng &, int &, size_t, std::string &) { return false; }
+  static bool run(int, V &, V &, std::vector<Val> &, std::vector<Val> &, Rng &, int &, size_t, std::string &) { return false; }
 };
 #ifdef AMC_NONSTD_FEATURES
 template <class V>
 struct ExtraOps<V, true> {
   typedef typename V::value_type T;
   typedef typename V::size_type S;
-  static bool run(int which, V &v, std::vector<Val> &m, Rng &r, int &pay, size_t room, std::string &desc) {
+  static bool run(int which, V &v, V &w, std::vector<Val> &m, std::vector<Val> &mw, Rng &r, int &pay, size_t room, std::string &desc) {
     char b[96];
     switch (which) {
+      case 4: {
+        v.swap2(w);
+        m.swap(mw);
+        desc = "swap2";
+        return true;
+      }
       case 0: {
         size_t n = r.below(4);
         if (m.size() + n > room) n = room - m.size();
@@ -188,7 +194,7 @@ struct VecScript {
         V &w = useB ? a : b;
         std::vector<Val> &m = useB ? mb : ma;
         std::vector<Val> &mw = useB ? ma : mb;
-        unsigned op = r.below(mask ? 36 : 32);
+        unsigned op = r.below(mask ? 37 : 32);
         size_t sz = m.size();
         std::string desc;
         char d[160];
@@ -361,7 +367,7 @@ struct VecScript {
               snprintf(d, sizeof d, "ctors(%zu)", n); desc = d;
             } break;
             default:
-              if (!ExtraOps<V, HasAppend<V>::value>::run((int)op - 32, v, m, r, pay, room, desc)) desc = "extra(unavailable)";
+              if (!ExtraOps<V, HasAppend<V>::value>::run((int)op - 32, v, w, m, mw, r, pay, room, desc)) desc = "extra(unavailable)";
               break;
           }
         } catch (std::out_of_range &) { exc = " !out_of_range";
